@@ -300,6 +300,9 @@ class Program:
         if isinstance(e, ast.Name):
             if env and e.id in env:
                 return env[e.id]
+            if c is not None and e.id in c.consts and depth > 0:
+                # a bare name inside a class body refers to an earlier class-level constant
+                return self.fold(c.consts[e.id], c.module, c, None, depth + 1)
             r = self.resolve(m, e.id)
             if isinstance(r, tuple) and r[0] == "const":
                 return self.fold(r[2], r[1], None, None, depth + 1)
